@@ -12,6 +12,15 @@ package ha
 //   sw  Manager.RequestSwitchover, peer RPC fails     SW  ... peer RPC reaches HAPeerServer.RequestSwitchover
 //   rs  HAPeerServer.RequestSwitchover
 //   st  the sm.Start()/publishTransition loop of Manager.Start (Start itself opens gRPC sockets)
+// Forced overlap (cases containing pD/pL/pS ops, run under -race): one Manager call per node can be parked
+// inside the event bus's Publish (publishTransition is called with no lock held) while other calls run:
+//   pD  heartbeat handler parked between PeerDiscovered (-> READY published) and the sm.State() == READY test
+//   pS  handlePeerLost parked between sm.PeerLost (transition published) and the ifDownCount read
+//   pL  handlePeerLost parked between its m.mu section (peerNodeID = "") and sm.PeerLost of "srg1": the manager
+//       gets a second group "srg0" (forced ACTIVE) whose PeerLost transition is the parking place; when the map
+//       iteration visits srg1 first (detected by holding srg1's lock while the call starts) the attempt is
+//       discarded and the whole case is run again
+//   rl  release the parked call and wait for it
 
 import (
 	"bufio"
@@ -33,6 +42,14 @@ import (
 )
 
 const c10SRG = "srg1"
+const c10GateSRG = "srg0"
+
+// parking place inside Publish
+type c10Gate struct {
+	kind    string // "" = not armed; "D", "S", "L"
+	parked  chan struct{}
+	release chan struct{}
+}
 
 type c10Sub struct{}
 
@@ -42,6 +59,7 @@ func (c10Sub) Unsubscribe() {}
 type c10Bus struct {
 	who  string
 	sink *[]string
+	gate *c10Gate
 }
 
 func (b *c10Bus) Publish(topic string, ev events.Event) {
@@ -53,7 +71,24 @@ func (b *c10Bus) Publish(topic string, ev events.Event) {
 		*b.sink = append(*b.sink, b.who+":BADEVENT")
 		return
 	}
-	*b.sink = append(*b.sink, b.who+":"+c10St(d.OldState)+">"+c10St(d.NewState))
+	if d.SRGName == c10SRG {
+		*b.sink = append(*b.sink, b.who+":"+c10St(d.OldState)+">"+c10St(d.NewState))
+	}
+	g := b.gate
+	hit := false
+	switch g.kind {
+	case "D":
+		hit = d.SRGName == c10SRG && d.NewState == string(SRGStateReady)
+	case "S":
+		hit = d.SRGName == c10SRG
+	case "L":
+		hit = d.SRGName == c10GateSRG
+	}
+	if hit {
+		g.kind = ""
+		g.parked <- struct{}{}
+		<-g.release
+	}
 }
 func (b *c10Bus) Subscribe(string, events.Handler) events.Subscription { return c10Sub{} }
 func (b *c10Bus) SubscribeAll(events.Handler) events.Subscription      { return c10Sub{} }
@@ -152,16 +187,42 @@ type c10Node struct {
 	stream *c10ClientStream
 	client *c10Client
 	inbox  []c10Msg
+	gate   *c10Gate
+	done   chan []c10Msg // non-nil while a call is parked: receives the replies the call produced
 }
 
-func c10NewNode(who string, id, prio int, preempt bool, dec, nifs int, sink *[]string) (*c10Node, error) {
+// node id token: <n> = "node-%05d", s:<dotted bytes> = the bytes, s:e = ""
+func c10ID(tok string) (string, bool) {
+	if strings.HasPrefix(tok, "s:") {
+		t := tok[2:]
+		if t == "e" {
+			return "", true
+		}
+		var b []byte
+		for _, p := range strings.Split(t, ".") {
+			v, err := strconv.Atoi(p)
+			if err != nil || v < 0 || v > 255 {
+				return "", false
+			}
+			b = append(b, byte(v))
+		}
+		return string(b), true
+	}
+	v, err := strconv.Atoi(tok)
+	if err != nil {
+		return "", false
+	}
+	return fmt.Sprintf("node-%05d", v), true
+}
+
+func c10NewNode(who string, id string, prio int, preempt bool, dec, nifs int, sink *[]string, twoSRG bool) (*c10Node, error) {
 	ifs := []string{}
 	for k := 0; k < nifs; k++ {
 		ifs = append(ifs, fmt.Sprintf("if%d", k))
 	}
 	cfg := &config.HAConfig{
 		Enabled: true,
-		NodeID:  fmt.Sprintf("node-%05d", id),
+		NodeID:  id,
 		SRGs: map[string]*config.SRGConfig{
 			c10SRG: {
 				VirtualMAC:             "02:ab:cd:00:00:01",
@@ -173,7 +234,11 @@ func c10NewNode(who string, id, prio int, preempt bool, dec, nifs int, sink *[]s
 			},
 		},
 	}
-	m, err := NewManager(cfg, &c10Bus{who: who, sink: sink},
+	if twoSRG {
+		cfg.SRGs[c10GateSRG] = &config.SRGConfig{VirtualMAC: "02:ab:cd:00:00:02", Priority: 100, SubscriberGroups: []string{"gate"}}
+	}
+	gate := &c10Gate{parked: make(chan struct{}), release: make(chan struct{})}
+	m, err := NewManager(cfg, &c10Bus{who: who, sink: sink, gate: gate},
 		WithInterfaceResolver(func(name string) (uint32, error) {
 			var k uint32
 			if _, err := fmt.Sscanf(name, "if%d", &k); err != nil {
@@ -186,7 +251,7 @@ func c10NewNode(who string, id, prio int, preempt bool, dec, nifs int, sink *[]s
 	}
 	m.StartContext(context.Background())
 	m.buildInterfaceMap()
-	n := &c10Node{m: m}
+	n := &c10Node{m: m, gate: gate}
 	n.srv = NewHAPeerServer(m, m.logger)
 	n.stream = &c10ClientStream{}
 	n.client = &c10Client{}
@@ -226,7 +291,49 @@ func c10Arg(tok string) int {
 	return v
 }
 
-func c10RunCase(f []string) (res string) {
+const c10Retry = "RETRY"
+
+func c10RunCase(f []string) string {
+	for try := 0; try < 200; try++ {
+		if r := c10RunCaseOnce(f); r != c10Retry {
+			return r
+		}
+	}
+	return "badcase could_not_force_the_overlap"
+}
+
+// start a Manager call in its own goroutine; returns true when it parked, false when it ran to its end
+func (n *c10Node) start(o *c10Node, call func() []c10Msg) bool {
+	done := make(chan []c10Msg, 1)
+	go func() {
+		defer func() {
+			if r := recover(); r != nil {
+				done <- []c10Msg{{m: nil}}
+			}
+		}()
+		done <- call()
+	}()
+	select {
+	case <-n.gate.parked:
+		n.done = done
+		return true
+	case r := <-done:
+		n.gate.kind = ""
+		o.inbox = append(o.inbox, r...)
+		return false
+	}
+}
+
+func (n *c10Node) releaseParked(o *c10Node) {
+	if n.done == nil {
+		return
+	}
+	n.gate.release <- struct{}{}
+	o.inbox = append(o.inbox, (<-n.done)...)
+	n.done = nil
+}
+
+func c10RunCaseOnce(f []string) (res string) {
 	defer func() {
 		if r := recover(); r != nil {
 			res = "panic " + strings.ReplaceAll(fmt.Sprint(r), " ", "_")
@@ -237,23 +344,38 @@ func c10RunCase(f []string) (res string) {
 	}
 	iv := make([]int, 10)
 	for i := 0; i < 10; i++ {
+		if i == 0 || i == 5 {
+			continue
+		}
 		v, err := strconv.Atoi(f[i])
 		if err != nil {
 			return "badcase"
 		}
 		iv[i] = v
 	}
+	ida, oka := c10ID(f[0])
+	idb, okb := c10ID(f[5])
+	if !oka || !okb {
+		return "badcase"
+	}
+	twoSRG := false
+	for _, tok := range f[10:] {
+		if strings.HasPrefix(tok, "pL") {
+			twoSRG = true
+		}
+	}
 	var sink []string
-	a, err := c10NewNode("a", iv[0], iv[1], iv[2] == 1, iv[3], iv[4], &sink)
+	a, err := c10NewNode("a", ida, iv[1], iv[2] == 1, iv[3], iv[4], &sink, twoSRG)
 	if err != nil {
 		return "badcfg"
 	}
 	defer a.m.StopContext()
-	b, err := c10NewNode("b", iv[5], iv[6], iv[7] == 1, iv[8], iv[9], &sink)
+	b, err := c10NewNode("b", idb, iv[6], iv[7] == 1, iv[8], iv[9], &sink, twoSRG)
 	if err != nil {
 		return "badcfg"
 	}
 	defer b.m.StopContext()
+	defer func() { a.releaseParked(b); b.releaseParked(a) }()
 	nodes := [2]*c10Node{a, b}
 	a.client.remote, b.client.remote = b.srv, a.srv
 	ctx := context.Background()
@@ -351,6 +473,74 @@ func c10RunCase(f []string) (res string) {
 			if err != nil || !resp.Success {
 				return "badcase remote_switchover_error"
 			}
+		case "pD":
+			if n.done != nil {
+				return "badcase two_parked_calls"
+			}
+			if len(n.inbox) == 0 {
+				break
+			}
+			i := c10Arg(tok) % len(n.inbox)
+			msg := n.inbox[i]
+			n.inbox = append(append([]c10Msg{}, n.inbox[:i]...), n.inbox[i+1:]...)
+			n.gate.kind = "D"
+			n.start(o, func() []c10Msg {
+				if msg.req {
+					ss := &c10ServerStream{in: msg.m}
+					if err := n.srv.Heartbeat(ss); err != nil {
+						panic("heartbeat handler error")
+					}
+					var out []c10Msg
+					for _, r := range ss.reply {
+						out = append(out, c10Msg{m: r, req: false})
+					}
+					return out
+				}
+				n.stream.next = msg.m
+				m, err := n.m.peer.RecvHeartbeat()
+				if err != nil {
+					panic("recv error")
+				}
+				n.m.handlePeerHeartbeat(m)
+				return nil
+			})
+		case "pS":
+			if n.done != nil {
+				return "badcase two_parked_calls"
+			}
+			n.gate.kind = "S"
+			n.start(o, func() []c10Msg { n.m.handlePeerLost(); return nil })
+		case "pL":
+			if n.done != nil {
+				return "badcase two_parked_calls"
+			}
+			g := n.m.srgs[c10GateSRG]
+			g.mu.Lock()
+			g.state = SRGStateActive
+			g.mu.Unlock()
+			// srg1's lock is held while the call starts: a parking signal that arrives while it is still held
+			// proves that the map iteration visited the parking group first and srg1.PeerLost has not run
+			s1 := n.m.srgs[c10SRG]
+			s1.mu.Lock()
+			n.gate.kind = "L"
+			done := make(chan []c10Msg, 1)
+			go func() { n.m.handlePeerLost(); done <- nil }()
+			select {
+			case <-n.gate.parked:
+				s1.mu.Unlock()
+				n.done = done
+			case <-time.After(15 * time.Millisecond):
+				s1.mu.Unlock()
+				select {
+				case <-n.gate.parked:
+					n.done = done
+				case <-done:
+					n.gate.kind = ""
+				}
+				return c10Retry // srg1 was visited first (or the goroutine was slow): run the case again
+			}
+		case "rl":
+			n.releaseParked(o)
 		default:
 			return "badcase bad_op_" + tok
 		}
